@@ -56,6 +56,13 @@ def run(ctx):
     for o_, s_ in (('-', '-'), (hexs(b'o'), '-'), ('-', hexs(b's')), ('-', 'nil'), ('nil', '-'), (hexs(b'o'), 'nil')):
         specs.append(f'{ders[0]}:{o_}:{s_}'); specs.append(f'{ders[0]}:{o_}:{s_},{ders[1 % len(ders)]}:nil:nil')
     g, m = ctx.both([f'cert.write {s}' for s in specs])
+    # object history: written once, blobs overwritten IN PLACE with others of the same length, written again
+    ip = []
+    for n_ in (1, 7, 24, 300):
+        a_o, b_o, a_s, b_s = rbytes(rng, n_), rbytes(rng, n_), rbytes(rng, n_), rbytes(rng, n_)
+        ip.append(f'cert.write.inplace {ders[0]}:{hexs(a_o)}:{hexs(a_s)} {ders[0]}:{hexs(b_o)}:{hexs(b_s)}')
+        ip.append(f'cert.write.inplace {ders[0]}:{hexs(a_o)}:nil,{ders[1 % len(ders)]}:nil:{hexs(a_s)} {ders[0]}:{hexs(b_o)}:nil,{ders[1 % len(ders)]}:nil:{hexs(b_s)}')
+    ctx.both(ip)
     # the same chains built by the library's constructor (NewCertChain) where the shape allows (blobs on the leaf only)
     fits = [s for s in specs if s and all(c.split(':')[1:] == ['nil', 'nil'] for c in s.split(',')[1:])]
     ctx.both([f'cert.write.new {s}' for s in dict.fromkeys(fits)])
@@ -90,6 +97,11 @@ def run(ctx):
     ops = []
     for spec in ([], [0], [0, 0], [1, 2, 3], [65535], [65536], [65533], [65534], [32766, 32765], [32766, 32766], [32767, 32767], [21843, 21843, 21843], [21844, 21843, 21843], [10] * 100, [0] * 32767, [0] * 32768):
         ops.append('sct.ser ' + (','.join(hexs(rbytes(rng, n)) if n else '-' for n in spec) or '.'))
+    # one SCT whose own bytes happen to be a well-formed length-prefixed list (an earlier output, a tiny list, a real-looking one)
+    for one in (bytes.fromhex('00030001ff'), bytes.fromhex('0004000161') + b'b', (7).to_bytes(2, 'big') + b'\x00\x05hello', bytes.fromhex('00020000'), bytes.fromhex('0000'),
+                (40).to_bytes(2, 'big') + (38).to_bytes(2, 'big') + rbytes(rng, 38), b'\x00\x74\x00\x72' + rbytes(rng, 114)):
+        ops.append('sct.ser ' + hexs(one))
+        ops.append('sct.ser ' + hexs(one) + ',' + hexs(b'x'))
     logid = rbytes(rng, 32)
     for els in ([b'\x00' + logid + b'\x01\x02\x03', b'\x00' + logid + b'\x09\x09\x09\x09'], [b'\x00' + logid + b'a' * 40] * 2, [b'\x00' + logid + b'a' * 40, b'\x01' + logid + b'a' * 40],
                 [b'\x00' + logid, b'\x00' + logid], [b'\x00' + logid + b'x', b'\x00' + rbytes(rng, 32) + b'x', b'\x00' + logid + b'y'], [b'same'] * 3, [b'', b''], [b'\x00' * 33, b'\x00' * 34]):
